@@ -13,16 +13,18 @@ CONSTANTS AtomId,      \* identities the harness can create
           FreshAP,     \* identities for attachment points created by remove_substituent
           ElemOf, LabelOf, Valence,   \* per identity / per element
           QGiven,      \* identities whose add_atom call passes a charge
-          MaxLive, HasCharges, Deviations
+          MaxLive, MaxView, HasCharges, Deviations
 VARIABLES atoms,    \* Seq(identity): the atom list
           bonds,    \* set of {x, y}
           coord,    \* [identity -> token]   (meaningful for live atoms)
           chg,      \* [identity -> token]
           nfresh,   \* fresh hydrogen identities consumed
           nap,      \* fresh attachment-point identities consumed
+          view,     \* identities selected by a Substructure view object that is being held across edits ({} = none)
           last
-vars == <<atoms, bonds, coord, chg, nfresh, nap, last>>
-sv == <<atoms, bonds, coord, chg, nfresh, nap>>
+vars == <<atoms, bonds, coord, chg, nfresh, nap, view, last>>
+sv == <<atoms, bonds, coord, chg, nfresh, nap, view>>
+ev == <<atoms, bonds, coord, chg, nfresh, nap>>     \* what an edit call may change
 AllId == AtomId \cup {Fresh[i] : i \in 1..Len(Fresh)} \cup {FreshAP[i] : i \in 1..Len(FreshAP)}
 Live == {atoms[i] : i \in 1..Len(atoms)}
 Pos(a) == CHOOSE i \in 1..Len(atoms) : atoms[i] = a
@@ -32,12 +34,14 @@ NanC  == [base |-> "nan", sh |-> 0]
 AnyC  == [base |-> "any", sh |-> 0]
 NoneC == [base |-> "none", sh |-> 0]
 
-Init == /\ atoms = <<>> /\ bonds = {} /\ nfresh = 0 /\ nap = 0
+Init == /\ atoms = <<>> /\ bonds = {} /\ nfresh = 0 /\ nap = 0 /\ view = {}
         /\ coord = [a \in AllId |-> NoneC] /\ chg = [a \in AllId |-> None]
         /\ last = [act |-> "init", out |-> "ok"]
 
-Note(a, o) == last' = a @@ [out |-> o]
-Fail(a) == UNCHANGED sv /\ Note(a, "error")
+NoteV(a, o) == last' = a @@ [out |-> o]
+(* every ordinary edit call leaves a held view object alone; a clone leaves it behind with the old molecule *)
+Note(a, o) == NoteV(a, o) /\ view' = IF a.act = "clone" THEN {} ELSE view
+Fail(a) == UNCHANGED ev /\ Note(a, "error")
 Remove(s, a) == SelectSeq(s, LAMBDA x : x # a)
 Touching(a) == {b \in bonds : a \in b}
 
@@ -149,7 +153,20 @@ SubTranslate(S) ==
   /\ Note([act |-> "sub_translate", S |-> S], "ok")
 
 (* Molecule(mol): continue the history on a clone *)
-Clone == /\ atoms # <<>> /\ UNCHANGED sv /\ Note([act |-> "clone"], "ok")
+Clone == /\ atoms # <<>> /\ UNCHANGED ev /\ Note([act |-> "clone"], "ok")
+
+(* v = mol.substructure(S), used once (coordinates read) and then KEPT while the molecule is edited *)
+MakeView(S) ==
+  /\ view = {} /\ S # {} /\ S \subseteq Live /\ Cardinality(S) <= MaxView
+  /\ view' = S /\ UNCHANGED ev /\ NoteV([act |-> "make_view", S |-> S], "ok")
+
+(* v.translate(vec) through the view made earlier: still exactly its atoms move, wherever their rows are now *)
+ViewTranslate ==
+  /\ view # {} /\ view \subseteq Live /\ (\A a \in Live : coord[a].sh = 0)
+  /\ \A a \in view : coord[a] \notin {NanC, AnyC, NoneC}
+  /\ coord' = [a \in AllId |-> IF a \in view THEN [coord[a] EXCEPT !.sh = 1] ELSE coord[a]]
+  /\ view' = {} /\ UNCHANGED <<atoms, bonds, chg, nfresh, nap>>
+  /\ NoteV([act |-> "view_translate", S |-> view], "ok")
 
 Next == \/ \E a \in AtomId : AddAtom(a, a \in QGiven) \/ AppendAtom(a) \/ DelAtomObj(a)
         \/ \E i, j \in 1..MaxLive : Connect(i, j)
@@ -162,6 +179,8 @@ Next == \/ \E a \in AtomId : AddAtom(a, a \in QGiven) \/ AppendAtom(a) \/ DelAto
         \/ AddH
         \/ \E S \in SUBSET AllId : SubTranslate(S)
         \/ Clone
+        \/ \E S \in SUBSET AllId : MakeView(S)
+        \/ ViewTranslate
 Spec == Init /\ [][Next]_vars
 
 ---------------------------------------------------------------------------
@@ -174,12 +193,12 @@ Obs == [atoms  |-> atoms,
 Aligned == \A a \in Live : coord[a] # NoneC /\ chg[a] \in {"q", "zero"}
 NoDupAtoms == \A i, j \in 1..Len(atoms) : atoms[i] = atoms[j] => i = j
 BondsInside == \A b \in bonds : b \subseteq Live /\ Cardinality(b) = 2
-KeepsGiven == [][last'.act \notin {"sub_translate"} =>
+KeepsGiven == [][last'.act \notin {"sub_translate", "view_translate"} =>
                    \A a \in Live \cap {atoms'[i] : i \in 1..Len(atoms')} : coord'[a] = coord[a] /\ chg'[a] = chg[a]]_vars
-MovesExactlySelected == [][last'.act = "sub_translate" =>
+MovesExactlySelected == [][last'.act \in {"sub_translate", "view_translate"} =>
                    \A a \in Live : (a \in last'.S => coord'[a] # coord[a]) /\ (a \notin last'.S => coord'[a] = coord[a])]_vars
 DeleteRemovesExactlyIncident ==
   [][last'.act = "del_atom" /\ last'.out = "ok" =>
        \E a \in Live : /\ atoms' = Remove(atoms, a) /\ bonds' = bonds \ Touching(a)]_vars
-FailedIsNoOp == [][last'.out # "ok" => sv' = sv]_vars
+FailedIsNoOp == [][last'.out # "ok" => ev' = ev]_vars
 =============================================================================
